@@ -51,6 +51,8 @@ def strategy_impl(draw, tier):
         "drop_facedim": draw(st.booleans()),
         "face_order": list(draw(st.permutations(list(range(Kx * Ky))))),
         "reverse_axes": draw(st.booleans()),
+        # use the Grid for a scalar (tracer) operation before the vector calls: earlier calls must not matter
+        "scalar_first": draw(st.booleans()),
     }
 
 
@@ -111,6 +113,11 @@ def check(case, ctx):
     uda = xr.DataArray(u[0] if drop_face else u, dims=ub).transpose(*uo)
     vda = xr.DataArray(v[0] if drop_face else v, dims=vb).transpose(*vo)
     cb, co = dims_for("yc", "xc")
+
+    if case.get("scalar_first"):
+        tracer = xr.DataArray(np.arange(float(np.prod(u.shape))).reshape(u.shape)[0] if drop_face else np.arange(float(np.prod(u.shape))).reshape(u.shape), dims=cb)
+        must_return("scalar operation before the vector calls", grid.interp, tracer, "X", to="left", **ckw)
+        must_return("scalar operation before the vector calls", grid.diff, tracer, "Y", to="left", **ckw)
 
     F = T.OPS[case["op"]]
     lead = U.shape[:-2]
